@@ -111,6 +111,22 @@ def proof_obligations(prop):
     bad_ax = [a for a in axioms]
     res["discharged"] = len(thms) if (not bad_ax and closed >= len(prints) and len(prints) >= len(thms) and not hits) else 0
     res["ok"] = res["discharged"] == res["obligations"] and res["obligations"] > 0 and gen_err is None
+    # thorough tier: independent re-check of the compiled property module and everything it depends on (coqchk), with the
+    # axioms it relies on printed (-o): must be none
+    if res["ok"] and os.environ.get("VERIF_TIER", "") == "thorough" or (res["ok"] and "--tier thorough" in " ".join(sys.argv)) or (res["ok"] and "thorough" in sys.argv):
+        try:
+            r = subprocess.run(["timeout", "1500", "coqchk", "-o", "-silent", "-Q", ".", "TrV", "TrV.Properties.Properties_%s" % prop],
+                               cwd=build.COQ, stdout=subprocess.PIPE, stderr=subprocess.STDOUT, text=True)
+            out = r.stdout[-3000:]
+            axioms_none = re.search(r"\* Axioms:\s*<none>", out) is not None
+            res["coqchk"] = dict(exit=r.returncode, axioms_none=axioms_none, summary=out[out.find("CONTEXT SUMMARY"):][:800])
+            res["assumptions"]["coqchk"] = res["coqchk"]
+            if r.returncode != 0 or not axioms_none:
+                res["ok"] = False
+                res["discharged"] = 0
+                res["log"] += "\ncoqchk: " + out
+        except Exception as e:
+            res["coqchk"] = dict(error=str(e))
     res["wall_s"] = time.time() - t0
     return res
 
